@@ -309,6 +309,21 @@ def programs(draw, tier):
         seeds.append(draw(gen.diagrams(cls, pool=pool, **kw)))
     if cls == "biclosed" and draw(st.booleans()):
         seeds.append(draw(rule_diagrams()))
+    first_ops = []
+    if cls == "rigid" and draw(st.integers(0, 2)) == 0:
+        # a cap and a cup in zig-zag position that are not a snake (outer
+        # legs of different types), normalised straight away
+        k = draw(st.integers(0, len(seeds) - 1))
+        width = len(specs.spec_cod(seeds[k]))
+        fake = gen.fake_snake(
+            seeds[k], draw(st.integers(0, max(0, width - 1))),
+            draw(st.booleans()), draw(st.sampled_from([-1, 1])),
+            draw(st.sampled_from([None, None, "scalar", "state", "endo"])))
+        if fake is not None:
+            seeds[k] = fake
+            flag = draw(st.integers(0, 1))
+            first_ops = [{"op": name, "x": k, "y": 0, "a": [0, 0, flag, 0]}
+                         for name in ("normalize", "normal_form")]
     small = st.one_of(st.none(), st.integers(-8, 8))
     op = st.fixed_dictionaries({
         "op": st.sampled_from(OPS), "x": st.integers(0, 30),
@@ -317,7 +332,7 @@ def programs(draw, tier):
                        st.integers(0, 5000)).map(list)})
     ops = draw(st.lists(op, min_size=3, max_size=25 if tier == "quick"
                         else 40))
-    return {"cls": cls, "seeds": seeds, "ops": ops,
+    return {"cls": cls, "seeds": seeds, "ops": first_ops + ops,
             "route": draw(st.sampled_from(["ctor", "whisker"]))}
 
 
